@@ -329,27 +329,33 @@ async fn current_manifest_path(
                 .parse_version(meta.location.filename().unwrap())
                 .unwrap();
             let mut current_meta = meta;
+            let mut current_scheme = scheme;
 
-            while let Some((scheme, meta)) = valid_manifests.next().await.transpose()? {
-                if matches!(scheme, ManifestNamingScheme::V2) {
+            while let Some((entry_scheme, meta)) = valid_manifests.next().await.transpose()? {
+                // This arm also serves V2 directories on stores whose listing is not
+                // lexically ordered, only a V1 directory must not contain V2 manifests.
+                if matches!(scheme, ManifestNamingScheme::V1)
+                    && matches!(entry_scheme, ManifestNamingScheme::V2)
+                {
                     return Err(Error::Internal {
                         message: "Found V2 manifest in a V1 manifest directory".to_string(),
                         location: location!(),
                     });
                 }
-                let version = scheme
+                let version = entry_scheme
                     .parse_version(meta.location.filename().unwrap())
                     .unwrap();
                 if version > current_version {
                     current_version = version;
                     current_meta = meta;
+                    current_scheme = entry_scheme;
                 }
             }
             Ok(ManifestLocation {
                 version: current_version,
                 path: current_meta.location,
                 size: Some(current_meta.size),
-                naming_scheme: scheme,
+                naming_scheme: current_scheme,
                 e_tag: current_meta.e_tag,
             })
         }
